@@ -66,10 +66,11 @@ theorem C09_noncritical_silent_seq (hooks : List Hook) (hh : ∀ x ∈ hooks, x.
 
 /-- Several hooks failing at the same point are reported TOGETHER: the number a weight
     reports is exactly the number of critical failing executions among everything awaited
-    and every task hook run at that weight. -/
+    (that a teardown has not cancelled: a cancelled call hands over no result) and every task
+    hook run at that weight. -/
 theorem C09_multi_reported_together (env : Env) (hooks : List Hook) (m : Moment) (w : Int) :
     (handleWeight env hooks m w).2.2 =
-      (((phase2 (phase1 env hooks m w).1 m w).2 ++
+      ((((phase2 (phase1 env hooks m w).1 m w).2.filter (fun i => !isCancelled env i)) ++
         (instantiate (phase2 (phase1 env hooks m w).1 m w).1
           ((hooks.filter (fun h => h.trig = m ∧ h.tw = w)).filter (fun h => h.isTask))).2).filter
         (fun i => i.fails && i.critical)).length := rfl
@@ -80,6 +81,35 @@ theorem C09_stop_at_first_failing_weight (env : Env) (hooks : List Hook) (m : Mo
     (h : (handleWeight env hooks m w).2.2 > 0) :
     handleWeights env hooks m (w :: ws) = handleWeight env hooks m w := by
   simp [handleWeights, h]
+
+/-- A failure is not lost by being collected LATE. A failing critical call that is pending at an await
+    point (moment, weight) stays pending there through the handling of every other moment — whatever
+    happens in between and however long it takes: the model has no clock, because the core has none
+    here (a call's own `timeout` is only handed to the plugin; nothing in callable/call.go or handleHooks
+    reads it) — … -/
+theorem C09_pending_result_kept (env : Env) (hooks : List Hook) (m m' : Moment) (p : Int → Bool) (w : Int) (i : Inst)
+    (hne : m' ≠ m) (hi : i ∈ pendingAt env m w) : i ∈ pendingAt (handleHooks env hooks m' p).1 m w :=
+  handleHooks_keeps_elsewhere env hooks m m' p w i hne hi
+
+/-- …and when the state machine handles the pass of its await moment that holds its weight, the pass
+    reports a critical failure: either this call is collected and counted, or an earlier weight of the
+    pass already failed critically. So the transition is cancelled (before_/leave_) or reported failed
+    (enter_/after_) exactly as if the result had been collected at once. (`hnc`: the call has not been
+    cancelled by a teardown — one that then failed to release its tasks, so that the environment lives on:
+    `cancelCallsPendingAwait` makes the call's goroutine drop the result, and a later Await reads nil.) -/
+theorem C09_late_result_counts (env : Env) (hooks : List Hook) (m : Moment) (p : Int → Bool) (w : Int) (i : Inst)
+    (hi : i ∈ pendingAt env m w) (hp : p w = true) (hf : i.fails = true) (hc : i.critical = true)
+    (hnc : isCancelled env i = false) :
+    (handleHooks env hooks m p).2.2 > 0 :=
+  handleHooks_counts_pending env hooks m p w i hi hp hf hc hnc
+
+/-- Non-vacuity: a critical call started at before_DEPLOY that fails and is awaited two transitions later,
+    at leave_DEPLOYED, cancels CONFIGURE (and DEPLOY went through). -/
+example :
+    let hooks : List Hook := [
+      { id := 0, isTask := false, critical := true, trig := .before .DEPLOY, tw := 0, await := .leave .DEPLOYED, aw := 5, outcomes := [true] }]
+    (runSeq hooks 0 {} [.try_ .DEPLOY true false, .try_ .CONFIGURE true false]).map (·.2.1) =
+      [.ok, .cancelledHooks 1 (.leave .DEPLOYED)] := by decide
 
 /-- Non-vacuity: two critical calls failing together at one point are counted as 2 and cancel CONFIGURE. -/
 example :
